@@ -1,17 +1,18 @@
 #!/bin/bash
 # eval_seeded_wt.sh [tier] [ids...] : like eval_seeded.sh but applies each seeded change to a scratch worktree of
 # /repo (VERIF_REPO) instead of /repo itself, so that /repo stays untouched and several evaluations can be queued.
+V=$(dirname "$(dirname "$(readlink -f "$0")")")   # /verif, or a snapshot of it
 tier=${1:-quick}; shift
-ids="$@"; [ -z "$ids" ] && ids=$(ls /verif/seeded)
+ids="$@"; [ -z "$ids" ] && ids=$(ls $V/seeded)
 wt=/tmp/evalwt.$$
 git -C /repo worktree add -q --detach $wt HEAD || exit 2
-cd /verif
+cd $V
 export VERIF_EVIDENCE=/tmp/evidence.eval.$$   # evidence of these runs is scratch
-trap 'rm -rf /tmp/evidence.eval.$$; git -C /repo worktree remove --force '$wt EXIT
+trap 'rm -rf /tmp/evidence.eval.$$; git -C /repo worktree remove --force '$wt'; env -u VERIF_REPO '$V'/build.sh >/dev/null 2>&1' EXIT   # the last line regenerates lean/Sipsp/Generated from /repo itself
 for id in $ids; do
   prop=${PROP:-${id:0:3}}
-  if ! git -C $wt apply --check /verif/seeded/$id/patch.diff 2>/dev/null; then echo "$id: patch does not apply"; continue; fi
-  git -C $wt apply /verif/seeded/$id/patch.diff
+  if ! git -C $wt apply --check $V/seeded/$id/patch.diff 2>/dev/null; then echo "$id: patch does not apply"; continue; fi
+  git -C $wt apply $V/seeded/$id/patch.diff
   out=$(VERIF_REPO=$wt ./check $prop $tier 2>&1); rc=$?
   git -C $wt checkout -- .
   v=$(echo "$out" | grep -m1 '^VIOLATION' )
